@@ -2,7 +2,10 @@ use crate::compound::CompoundObject;
 use crate::lterm::{LTerm, LTermInner};
 use crate::user::User;
 use crate::engine::Engine;
+#[cfg(not(terohuttunen_proto_vulcan_verif))]
 use std::collections::HashMap;
+#[cfg(terohuttunen_proto_vulcan_verif)]
+use crate::verif_sim::HashMap;
 use std::ops::Deref;
 
 /// Substitution Map
@@ -204,7 +207,10 @@ where
     E: Engine<U>,
 {
     type Item = (LTerm<U, E>, LTerm<U, E>);
+    #[cfg(not(terohuttunen_proto_vulcan_verif))]
     type IntoIter = ::std::collections::hash_map::IntoIter<LTerm<U, E>, LTerm<U, E>>;
+    #[cfg(terohuttunen_proto_vulcan_verif)]
+    type IntoIter = ::std::vec::IntoIter<(LTerm<U, E>, LTerm<U, E>)>;
 
     fn into_iter(self) -> Self::IntoIter {
         self.0.into_iter()
